@@ -4,7 +4,7 @@ package frr
 
 // C19 harness for internal/bgp/frr: the scripts of spec/DebounceMC.tla are played against
 //   target "deb": the real debouncer(...) with the intervals of the script as parameters, and
-//   target "sm":  the real NewSessionManager wiring (SyncExtraInfo -> createConfig -> channel ->
+//   target "sm":  the real NewSessionManager wiring (SyncExtraInfo / SyncBFDProfiles / session.Set -> createConfig -> channel ->
 //                 debouncer -> generateAndReloadConfigFile -> template -> file -> reloadConfig()),
 //                 with only the package variables reloadConfig/debounceTimeout/failureTimeout and
 //                 the FRR_CONFIG_FILE environment variable set by the harness.
@@ -13,18 +13,23 @@ package frr
 import (
 	"bytes"
 	"fmt"
+	"net"
 	"os"
 	"path/filepath"
 	"regexp"
 	"runtime"
 	"strconv"
+	"sync"
 	"sync/atomic"
 	"testing"
 	"time"
 
 	"github.com/go-kit/log"
+	"go.universe.tf/metallb/internal/bgp"
+	metallbconfig "go.universe.tf/metallb/internal/config"
 	"go.universe.tf/metallb/internal/logging"
 	"go.universe.tf/metallb/internal/verifkit"
+	"k8s.io/utils/ptr"
 )
 
 type vdebTarget struct {
@@ -64,8 +69,17 @@ func vdebMake(env *verifkit.DebEnv) verifkit.DebTarget {
 
 type vdebSMTarget struct {
 	sm   *sessionManager
+	sess [2]*session
+	env  *verifkit.DebEnv
 	run  string
+	via  string
 	base int // debouncer goroutines that were alive before this run's session manager was created
+
+	req  vdebState // what the harness has asked for so far (touched by submitter "u" only)
+	val  int       // the value Digest chose for the submission that follows
+	nops int
+	mu  sync.Mutex
+	ids map[string]int
 }
 
 // vdebAlive counts the goroutines running the loop of debouncer().  The reload action of the session
@@ -102,18 +116,97 @@ func (t *vdebSMTarget) Busy() bool {
 	return false
 }
 
-// the run's name is part of every configuration: a reload action that finds another run's
-// configuration in the file was not caused by this run (the reload action is a package variable)
+// ---- configurations of the session-manager target
+//
+// What the harness asks for is a tuple (extra, rx, adv[0], adv[1]): the number in the extra
+// configuration, the receive interval of the one BFD profile (the NUMBER of profiles never changes)
+// and the prefix advertised through each of two sessions.  A script step Submit(c) changes one
+// component through the entry point named by the script's `via`:
+//   extra  SyncExtraInfo          bfd  SyncBFDProfiles          set  session[c%2].Set
+//   mix    c%3 = 1: extra, 2: bfd, 0: set, with a value that rotates from submission to submission
+// Digest() keeps the harness's own copy of the tuple and names each distinct tuple by a small
+// number; the reload action reads the tuple back from the file FRR would load and reports the same
+// numbers.  So "what was applied" is compared with "what was asked for", never with what the
+// session manager or the debouncer stored.  Submit(-2) is a Set that passes validate() and is
+// rejected by createConfig (one prefix with two local preferences).
+type vdebState struct {
+	extra, rx int
+	adv       [2]int
+}
+
+func (s vdebState) key() string { return fmt.Sprintf("%d|%d|%d|%d", s.extra, s.rx, s.adv[0], s.adv[1]) }
+
+func (t *vdebSMTarget) id(key string) int {
+	t.mu.Lock()
+	defer t.mu.Unlock()
+	if n, ok := t.ids[key]; ok {
+		return n
+	}
+	n := len(t.ids) + 1
+	t.ids[key] = n
+	return n
+}
+
+func (t *vdebSMTarget) component(c int) string {
+	switch t.via {
+	case "bfd", "set":
+		return t.via
+	case "mix":
+		return []string{"set", "extra", "bfd"}[c%3]
+	}
+	return "extra"
+}
+
+func (t *vdebSMTarget) Digest(c int) int {
+	t.val = c
+	if t.via == "mix" { // every component keeps changing: the value rotates with the number of submissions
+		t.nops++
+		t.val = 1 + (c+t.nops)%3
+	}
+	switch t.component(c) {
+	case "extra":
+		t.req.extra = t.val
+	case "bfd":
+		t.req.rx = t.val
+	case "set":
+		t.req.adv[c%2] = t.val
+	}
+	return t.id(t.req.key())
+}
+
+func vdebPrefix(sess, n int) *net.IPNet {
+	_, p, _ := net.ParseCIDR(fmt.Sprintf("10.%d.%d.0/24", sess+1, n))
+	return p
+}
+
 func (t *vdebSMTarget) Submit(c int) {
-	if err := t.sm.SyncExtraInfo(fmt.Sprintf("! verif-config-%s-%d.", t.run, c)); err != nil {
+	var err error
+	if c == -2 {
+		p := vdebPrefix(0, 99)
+		if t.sess[0].Set(&bgp.Advertisement{Prefix: p, LocalPref: 100}, &bgp.Advertisement{Prefix: p, LocalPref: 200}) == nil {
+			t.env.SetErr("a Set with two local preferences for one prefix was accepted")
+		}
+		return
+	}
+	switch t.component(c) {
+	case "extra":
+		err = t.sm.SyncExtraInfo(vdebExtra(t.run, t.val))
+	case "bfd":
+		err = t.sm.SyncBFDProfiles(map[string]*metallbconfig.BFDProfile{"verif": {Name: "verif", ReceiveInterval: ptr.To(uint32(100 + t.val))}})
+	case "set":
+		err = t.sess[c%2].Set(&bgp.Advertisement{Prefix: vdebPrefix(c%2, t.val)})
+	}
+	if err != nil {
 		panic(err)
 	}
 }
 func (t *vdebSMTarget) NoConf() { t.sm.reloadConfig <- reloadEvent{useOld: true} } // what validateReload sends
 func (t *vdebSMTarget) Close(clean bool) {
-	if clean {
-		close(t.sm.reloadConfig)
+	if !clean { // a submitter is still inside its call: closing the channel would panic it
+		vdebLingering.Add(1)
+		return
 	}
+	close(t.sm.reloadConfig)
 	for t0 := time.Now(); vdebAlive() > t.base; time.Sleep(2 * time.Millisecond) {
 		if time.Since(t0) > 3*time.Second {
 			vdebLingering.Add(1)
@@ -122,8 +215,42 @@ func (t *vdebSMTarget) Close(clean bool) {
 	}
 }
 
-var vdebMarker = regexp.MustCompile(`verif-config-(\S+)-(\d+)\.`)
-var vdebForeign atomic.Int64
+// the run's name is part of every configuration: a reload action that finds another run's
+// configuration in the file was not caused by this run (the reload action is a package variable)
+func vdebExtra(run string, n int) string { return fmt.Sprintf("! verif-run-%s. verif-extra-%d.", run, n) }
+
+var (
+	vdebRunRe   = regexp.MustCompile(`verif-run-(\S+)\. verif-extra-(\d+)\.`)
+	vdebRxRe    = regexp.MustCompile(`receive-interval (\d+)`)
+	vdebAdvRe   = regexp.MustCompile(`permit 10\.(\d+)\.(\d+)\.0/24`)
+	vdebForeign atomic.Int64
+)
+
+// vdebReadBack: the tuple in the file FRR would load, and the run it was rendered for.
+func vdebReadBack(file string) (run string, st vdebState, ok bool) {
+	b, err := os.ReadFile(file)
+	if err != nil {
+		return "", st, false
+	}
+	m := vdebRunRe.FindSubmatch(b)
+	if m == nil {
+		return "", st, false
+	}
+	run = string(m[1])
+	st.extra, _ = strconv.Atoi(string(m[2]))
+	if m := vdebRxRe.FindSubmatch(b); m != nil {
+		rx, _ := strconv.Atoi(string(m[1]))
+		st.rx = rx - 100
+	}
+	for _, m := range vdebAdvRe.FindAllSubmatch(b, -1) {
+		sess, _ := strconv.Atoi(string(m[1]))
+		n, _ := strconv.Atoi(string(m[2]))
+		if sess >= 1 && sess <= 2 {
+			st.adv[sess-1] = n
+		}
+	}
+	return run, st, true
+}
 
 func vdebMakeSM(dir string) func(env *verifkit.DebEnv) verifkit.DebTarget {
 	return func(env *verifkit.DebEnv) verifkit.DebTarget {
@@ -131,24 +258,38 @@ func vdebMakeSM(dir string) func(env *verifkit.DebEnv) verifkit.DebTarget {
 		os.Setenv("FRR_CONFIG_FILE", file)
 		debounceTimeout = env.ReloadInterval()
 		failureTimeout = env.RetryInterval()
+		t := &vdebSMTarget{run: env.Script.ID, via: env.Script.Via, env: env, ids: map[string]int{}}
 		reloadConfig = func() error {
-			c, run := 0, env.Script.ID
-			if b, err := os.ReadFile(file); err == nil {
-				if m := vdebMarker.FindSubmatch(b); m != nil {
-					run = string(m[1])
-					c, _ = strconv.Atoi(string(m[2]))
-				}
-			}
-			if run != env.Script.ID || env.Over() {
+			run, st, ok := vdebReadBack(file)
+			if !ok || run != env.Script.ID || env.Over() {
 				vdebForeign.Add(1)
 				env.Disturb()
 				return nil
 			}
-			return env.Body(c)
+			return env.Body(t.id(st.key()))
 		}
-		base := vdebAlive()
+		t.base = vdebAlive()
 		sm := NewSessionManager(log.NewNopLogger(), logging.LevelInfo).(*sessionManager)
-		return &vdebSMTarget{sm: sm, run: env.Script.ID, base: base}
+		// the state the scripts start from, installed without a submission: the run's name, one BFD
+		// profile (built the way SyncBFDProfiles builds it) and two sessions (what NewSession does
+		// minus its submission)
+		sm.extraConfig = vdebExtra(env.Script.ID, 0)
+		sm.bfdProfiles = append(make([]BFDProfile, 0), *ConfigBFDProfileToFRR(&metallbconfig.BFDProfile{Name: "verif", ReceiveInterval: ptr.To(uint32(100))}))
+		for i := range t.sess {
+			s := &session{
+				advertised:     []*bgp.Advertisement{},
+				sessionManager: sm,
+				SessionParameters: bgp.SessionParameters{
+					PeerAddress: fmt.Sprintf("10.9.0.%d", i+1), PeerPort: 179, SourceAddress: net.ParseIP("10.8.0.1"),
+					MyASN: 64512, RouterID: net.ParseIP("10.8.0.1"), PeerASN: uint32(64600 + i),
+					CurrentNode: "verifnode", SessionName: fmt.Sprintf("verif-peer-%d", i),
+				},
+			}
+			_ = sm.addSession(s)
+			t.sess[i] = s
+		}
+		t.sm = sm
+		return t
 	}
 }
 
